@@ -206,6 +206,10 @@ func TestC06(t *testing.T) {
 // ---- C06 (process level): the real make / chop / cache / tar -i commands against a store that fails one request ----
 
 func runC06Proc(c *fw.Case) {
+	if c.Chance(1, 5, "proc.sysfault") {
+		runSysFaultProc(c, "C06")
+		return
+	}
 	c.Probe("process-level-case (real desync binary)")
 	cmdKind := c.Draw(4, "proc.cmd")
 	names := []string{"chop", "cache", "make", "tar -i"}
